@@ -107,7 +107,7 @@ TECHNIQUE = ("Coq proof over a hand-written Gallina model of lib/model/price (so
              "history for Insert, a queue/result invariant for the breadth-first Normalize) + model/implementation correspondence on "
              "generated price graphs through extraction, with the executable statement valid_price_b evaluated on the Go output")
 LEVEL_TEXT = ("Theorems C12_zero_rejected, C12_insert_total, C12_latest(_explicit), C12_reciprocal, C12_self, C12_direct, C12_chain, C12_chain_shortest, C12_reachable, "
-              "C12_unreachable, C12_normalize_total, C12_order_independent (Coq, closed under the global context) state the property for "
+              "C12_unreachable, C12_normalize_total, C12_order_independent, C12_day (ComputePrices: day k sees the history up to day k), C12_compute_prices_no_panic (Coq, closed under the global context) state the property for "
               "every declaration history, every order and every valuation commodity; C12_model_meets_spec proves that the executable "
               "statement evaluated on the Go output holds of the model; C12_dfs_refuted shows that the pinned depth-first traversal does "
               "not have the property.  The model is tied to prices.go by running both on the same histories on every check.")
